@@ -892,14 +892,13 @@ Proof. intros s Hs Hin. rewrite (S_init_preds s Hs Hin). cbn. lia. Qed.
 Lemma init_not_in_inl s : s < length S -> d_init (dget S s) = true ->
   set_mem s (inlined_states S) = false.
 Proof.
-  intros Hs Hin. rewrite inlined_states_eq, set_mem_idx by exact Hs.
-  unfold one_pred. rewrite (S_init_preds s Hs Hin). reflexivity.
+  intros Hs Hin. exact (no_preds_not_inlined S s Hs (S_init_preds s Hs Hin)).
 Qed.
 
 Lemma F_arm0 : arm_lookup (p_arms prog) 0 = Some 0.
 Proof.
   destruct (entry_state 0 ds_pos) as [Hlt [Hin _]]. rewrite F_entry0 in Hlt, Hin.
-  exact (dispatch_correct S 0 S_init_not_inlined Hlt (init_not_in_inl 0 Hlt Hin)).
+  exact (dispatch_correct' S 0 Hlt (init_not_in_inl 0 Hlt Hin)).
 Qed.
 
 Lemma F_dispatch k p s : At k p s -> p <> [] ->
@@ -909,7 +908,7 @@ Proof.
   intros H _. destruct (At_inv k p s H) as [_ [_ [i [_ [_ [_ [_ [Hlt _]]]]]]]].
   cbn [p_inlined p_arms prog].
   destruct (set_mem s (inlined_states S)) eqn:Em; [left; reflexivity|right].
-  exact (dispatch_correct S s S_init_not_inlined Hlt Em).
+  exact (dispatch_correct' S s Hlt Em).
 Qed.
 
 Lemma F_switch k : k < length (p_switch prog) -> k < length rss /\
@@ -933,7 +932,7 @@ Proof.
   subst x. exists nm, (renumber (inlined_states S) (entry k)). split.
   - rewrite map_map. rewrite (map_nth_error _ k E En). reflexivity.
   - rewrite Hl in Hk. destruct (entry_state k Hk) as [Hlt [Hin _]].
-    exact (dispatch_correct S (entry k) S_init_not_inlined Hlt (init_not_in_inl _ Hlt Hin)).
+    exact (dispatch_correct' S (entry k) Hlt (init_not_in_inl _ Hlt Hin)).
 Qed.
 
 
